@@ -232,6 +232,13 @@ func noteScriptError(msg string) {
 
 var lambdaRe = regexp.MustCompile(`\(lambda `)
 
+// crossCheck (thorough tier): after the first decisive answer the other solvers get a grace period to
+// answer too; a second decisive answer must agree. Disagreement is an engine error, agreement is
+// counted in the evidence.
+var crossCheck bool
+var crossMu sync.Mutex
+var crossConfirmed, crossAlone int
+
 // solve races the solvers on script. which: indices into solvers (nil = all).
 func solve(script string, timeoutS int, seed int, useCvc5 bool) SolveResult {
 	file := scratchFile("q", ".smt2")
@@ -284,6 +291,36 @@ func solve(script string, timeoutS int, seed int, useCvc5 bool) SolveResult {
 		res.All[o.name] = fmt.Sprintf("%s (%.2fs)", first, o.secs)
 		if o.v != VUnknown && res.Verdict == VUnknown {
 			res.Verdict, res.Solver, res.Seconds, res.Output = o.v, o.name, o.secs, o.out
+			if crossCheck && i < n-1 {
+				confirmed := false
+				grace := time.After(10 * time.Second)
+			wait:
+				for j := i + 1; j < n; j++ {
+					select {
+					case o2 := <-ch:
+						first2 := strings.TrimSpace(strings.SplitN(o2.out, "\n", 2)[0])
+						res.All[o2.name] = fmt.Sprintf("%s (%.2fs)", first2, o2.secs)
+						if o2.v != VUnknown {
+							if o2.v != o.v {
+								noteScriptError(fmt.Sprintf("SOLVER DISAGREEMENT: %s says %s, %s says %s", o.name, o.v, o2.name, o2.v))
+							} else {
+								confirmed = true
+							}
+						}
+					case <-grace:
+						break wait
+					}
+				}
+				crossMu.Lock()
+				if confirmed {
+					crossConfirmed++
+				} else {
+					crossAlone++
+				}
+				crossMu.Unlock()
+				cancel()
+				return res
+			}
 			cancel()
 			// drain remaining in background
 			go func(k int) {
